@@ -368,6 +368,13 @@ lz_encoder_prepare(lzma_mf *mf, const lzma_allocator *allocator,
 }
 
 
+#ifdef TUKAANI_PROJECT_XZ_VERIF
+/// Number of input bytes after which the match finder position counter
+/// reaches MUST_NORMALIZE_POS; zero means the normal behaviour.
+uint32_t lzma_verif_mf_norm_after = 0;
+#endif
+
+
 static bool
 lz_encoder_init(lzma_mf *mf, const lzma_allocator *allocator,
 		const lzma_lz_options *lz_options)
@@ -393,6 +400,16 @@ lz_encoder_init(lzma_mf *mf, const lzma_allocator *allocator,
 	// that match finder needs to be normalized more often, which may
 	// hurt performance with huge dictionaries.
 	mf->offset = mf->cyclic_size;
+#ifdef TUKAANI_PROJECT_XZ_VERIF
+	// Verification hook (off by default): start from a larger, equally
+	// legal offset so that normalize() runs after a few KiB instead of
+	// after ~4 GiB. All hash entries start as EMPTY_HASH_VALUE, so any
+	// offset >= cyclic_size is a valid starting point.
+	if (lzma_verif_mf_norm_after != 0
+			&& UINT32_MAX - lzma_verif_mf_norm_after
+				>= mf->cyclic_size)
+		mf->offset = UINT32_MAX - lzma_verif_mf_norm_after;
+#endif
 	mf->read_pos = 0;
 	mf->read_ahead = 0;
 	mf->read_limit = 0;
